@@ -35,14 +35,18 @@ UseExternalVbusIndicator<<7, computed every cycle from the sampled control input
 A case ends at the first failed convergence or dead-lock (the DUT state is then no longer comparable).
 Known findings on the unchanged tree are named by narrow classifiers (`classify`, see findings/C24.md); anything else keeps
 its generic mechanism name and fails the run:
-  * `regwrite_uses_live_address_and_data_after_request_changed`: only for a wrong value / a write to register 0x00 / registers
-    not converged, and only if at least two distinct control-change cycles lie in the same episode (since the last converged
+  * `regwrite_uses_live_address_and_data_after_request_changed`: only for a wrong value that equals what some register's live
+    inputs request in the cycles the data byte is taken (or 0x00) / a write of 0x00 to register 0x00 / registers not
+    converged *with a silent link* (no command for 80 cycles: the defect makes the link believe it is done), and only if at least two distinct control-change cycles lie in the same episode (since the last converged
     checkpoint) -- with a single change per episode (patterns single, multi, abort_stage, tx_near, most under_dir) the
     defect cannot be triggered, so those episodes judge every link without excuse;
   * `regwrite_started_while_txcmd_pending`: only if in the same episode a register write became startable (control change,
     two cycles after a commit with another difference queued, the cycle after a packet's STP, end of the start-up delay)
     in a cycle t0 <= e <= a, where tx_valid rose at t0 and the PHY accepted that TXCMD at a, with a register difference
-    pending at e.  (A change one cycle *before* tx_valid is not covered: the unchanged tree handles it.)
+    pending at e.  (A change one cycle *before* tx_valid is not covered: the unchanged tree handles it.)  Blocked / not
+    converged is attributed only with a silent link.
+  Never attributed to a finding: `register_rewritten_endlessly` (the same value committed to a register four times in a row
+  without any input change), `regwrite_value_unexplained`, writes to other registers, non-convergence with an active link.
 
 Not judged: transmit packet content and STP data (C23), the receive path (C22); op_mode is not changed while a
 transmission is pending (the TXCMD would legitimately change).
@@ -73,6 +77,7 @@ M_LIVE = "regwrite_uses_live_address_and_data_after_request_changed"
 M_TXCMD = "regwrite_started_while_txcmd_pending"
 KNOWN = (M_LIVE, M_TXCMD)
 LIVE_KINDS = ("regwrite_blocked", "registers_not_converged", "regwrite_value_never_requested", "regwrite_to_register_0")
+NEVER_KNOWN = ("register_rewritten_endlessly", "regwrite_value_unexplained", "regwrite_to_unrequested_register")
 
 CONVERGE_BOUND = 300
 PROGRESS_BOUND = 150
@@ -479,7 +484,7 @@ def judge_writes(res, V, phy, req, regs_hist, change_cycles, st):
         lo_cp = max([c for c in st["checkpoints"] if c <= first_seen] or [0])
         chg_ep = [c for c in change_cycles if lo_cp < c <= kc]
         if addr not in req:
-            V("regwrite_to_register_0" if addr == 0 else "regwrite_to_unrequested_register", kc,
+            V("regwrite_to_register_0" if (addr == 0 and value == 0) else "regwrite_to_unrequested_register", kc,
               "write of %#04x to register %#04x committed at cycle %d (command first seen %d); control changes since the last converged checkpoint (%d): %s"
               % (value, addr, kc, first_seen, lo_cp, chg_ep[:6]))
             continue
@@ -496,12 +501,29 @@ def judge_writes(res, V, phy, req, regs_hist, change_cycles, st):
         if info.get("data_cycle") and any(c < info["data_cycle"] for c in chg_in_flight) and req[addr][min(kc, n - 1)] == regs_hist[addr][max(1, min(first_seen, n - 1) - 1)]:
             res.bin("revert_before_data_byte")
         if value not in allowed:
-            V("regwrite_value_never_requested", kc,
+            # The open defect puts the *live* selection on the bus: the value some register's inputs request in the cycles in
+            # which the data byte is taken (or 0x00 when nobody requests).  Anything else cannot come from it.
+            acc = min(info.get("accept") or kc, n - 1)
+            live = {0}
+            for a2 in req:
+                live.update(req[a2][max(1, acc - 3):min(info.get("data_cycle") or kc, n - 1) + 1])
+            V("regwrite_value_never_requested" if value in live else "regwrite_value_unexplained", kc,
                           "register %#04x written with %#04x at cycle %d (command first seen %d, data byte taken at %s); values requested for it since cycle %d: %s; "
                           "other register requested %s; control changes since the last converged checkpoint (%d): %s"
                           % (addr, value, kc, first_seen, info.get("data_cycle"), lo, sorted(hex(v) for v in allowed if v is not None),
                              fmt(req[other][min(kc, n - 1)]), lo_cp, chg_ep[:6]))
         prev_commit[addr] = kc
+    # endless rewriting: the same value committed to the same register again and again although no input changes in between
+    runs = {}
+    for (kc, addr, value, info) in phy.reg_writes:
+        r = runs.get(addr)
+        if r and r[0] == value and not any(r[1] < c <= kc for c in change_cycles):
+            r[2] += 1
+            if r[2] == 4:
+                V("register_rewritten_endlessly", kc, "register %#04x written with %#04x four times in a row (cycles %d..%d) although no control input changed in between; requested %s"
+                  % (addr, value, r[1], kc, fmt(req[addr][min(kc, n - 1)]) if addr in req else "-"))
+        else:
+            runs[addr] = [value, kc, 1]
 
 
 def judge_bus(res, V, phy, utmi_accepts, st, req, regs_hist, change_cycles):
@@ -565,8 +587,13 @@ def classify(res, raw, phy, req, regs_hist, change_cycles, st, tx_rises, startup
         lo = max([c for c in cps if c <= k] or [0])
         hi = min([c for c in cps if c > k] or [last_cycle + 1])
         final = mech
-        if mech.startswith("harness"):
+        # both open defects leave the link *silent* (it believes it is done, or it is dead-locked): a link that keeps issuing
+        # commands while the registers differ / the transmission starves is not explained by them
+        silent = not any(k - 80 <= c <= k for c, _ in phy.cmd_seen)
+        if mech.startswith("harness") or mech in NEVER_KNOWN:
             pass
+        elif mech in ("registers_not_converged", "regwrite_blocked", "tx_blocked") and not silent:
+            detail += " [link still issuing commands: %s]" % [(c, hex(v)) for c, v in phy.cmd_seen if k - 80 <= c <= k][-4:]
         elif any(lo < t <= hi for t in triggers):
             final = M_TXCMD
             detail += " [a register write became startable at cycle(s) %s while a TXCMD was pending]" % [t for t in triggers if lo < t <= hi][:3]
